@@ -122,11 +122,30 @@ func newEnv(sc scenario) (*env, error) {
 		}
 		e.secondary = sec
 		c = kv.VerifNewMultiClient(kv.MultiConfig{MirrorEnabled: true}, sc.Backend, c, other, sec, log.NewNopLogger(), nil)
+	case "multi-badmirror":
+		// the store the writes are mirrored to rejects every write: mirroring is best effort, the outcome
+		// of a call is the outcome on the primary store
+		other := "consul"
+		if sc.Backend == "consul" {
+			other = "etcd"
+		}
+		sec, err := e.backend(other)
+		if err != nil {
+			return nil, err
+		}
+		c = kv.VerifNewMultiClient(kv.MultiConfig{MirrorEnabled: true}, sc.Backend, c, other, rejectingStore{sec}, log.NewNopLogger(), nil)
 	case "prefix+metrics":
 		c = kv.VerifMetricsClient(sc.Backend, kv.PrefixClient(c, "pfx/"), prometheus.NewRegistry())
 	}
 	e.client = c
 	return e, nil
+}
+
+// rejectingStore fails every write.
+type rejectingStore struct{ kv.Client }
+
+func (rejectingStore) CAS(context.Context, string, func(interface{}) (interface{}, bool, error)) error {
+	return fmt.Errorf("mirror store unavailable")
 }
 
 type outcome struct {
@@ -167,6 +186,7 @@ func execute(t *testing.T, sc scenario) (out outcome) {
 			in         int64
 		}
 		var commits []commit
+		leftover := ""
 		attemptOut := map[string]string{} // value produced by some attempt -> which
 		committedOut := map[string]bool{} // values produced by the attempts that committed
 		notWritten := map[string]bool{}
@@ -215,11 +235,25 @@ func execute(t *testing.T, sc scenario) (out outcome) {
 						return nil, false, fmt.Errorf("boom")
 					case kind == "failretry" && attempts <= 2:
 						return nil, true, fmt.Errorf("retry me")
+					case kind == "scribbleRetry" && attempts == 1:
+						// works on its input in place, then gives up this attempt and asks for another: the next
+						// attempt must be handed the stored value, not this attempt's leftovers
+						if d, ok := in.(*ring.Desc); ok && d != nil {
+							d.Ingesters["scribble"] = ring.InstanceDesc{Addr: "leftover of an aborted attempt"}
+						}
+						return nil, true, fmt.Errorf("retry me")
 					case kind == "incOnce" && attempts > 1:
 						// wrote on the first attempt, lost the race, and on the retry sees no need any more
 						return nil, false, nil
 					}
 					d := ring.GetOrCreateRingDesc(in)
+					if _, dirty := d.Ingesters["scribble"]; dirty {
+						mu.Lock()
+						if leftover == "" {
+							leftover = fmt.Sprintf("caller %d op %d attempt %d was handed a value containing the modifications of an aborted attempt", c, o, attempts)
+						}
+						mu.Unlock()
+					}
 					cnt := d.Ingesters["counter"]
 					cnt.Timestamp = p.in + 1
 					cnt.Addr = "counter"
@@ -248,6 +282,13 @@ func execute(t *testing.T, sc scenario) (out outcome) {
 			}
 		}
 		checkNow := func(where string) {
+			mu.Lock()
+			lo := leftover
+			mu.Unlock()
+			if lo != "" {
+				fail("%s: %s", where, lo)
+				return
+			}
 			v, err := client.Get(ctx, "k")
 			if err != nil {
 				fail("%s: Get: %v", where, err)
@@ -399,7 +440,7 @@ func names(d *ring.Desc) []string {
 }
 
 var backends = []string{"consul", "etcd", "memberlist"}
-var wrappers = []string{"bare", "bare", "prefix", "metrics", "multi", "multi", "prefix+metrics"}
+var wrappers = []string{"bare", "bare", "prefix", "metrics", "multi", "multi", "multi-badmirror", "prefix+metrics"}
 
 func TestCASSchedulesRapid(t *testing.T) {
 	rapid.Check(t, func(rt *rapid.T) {
@@ -409,7 +450,7 @@ func TestCASSchedulesRapid(t *testing.T) {
 		for c := 0; c < nCallers; c++ {
 			var ks []string
 			for o := 0; o < nOps; o++ {
-				ks = append(ks, rapid.SampledFrom([]string{"inc", "inc", "inc", "inc", "decline", "fail", "failretry", "incOnce", "incOnce"}).Draw(rt, "kind"))
+				ks = append(ks, rapid.SampledFrom([]string{"inc", "inc", "inc", "inc", "decline", "fail", "failretry", "incOnce", "incOnce", "scribbleRetry"}).Draw(rt, "kind"))
 			}
 			sc.Kinds = append(sc.Kinds, ks)
 		}
@@ -441,7 +482,7 @@ func TestCASSchedulesExhaustive(t *testing.T) {
 		}
 		return
 	}
-	kindSets := [][][]string{{{"inc"}, {"inc"}}, {{"inc", "inc"}, {"inc"}}, {{"inc"}, {"decline", "inc"}}, {{"failretry"}, {"inc"}}, {{"inc", "inc"}, {"inc", "inc"}}, {{"inc"}, {"inc"}, {"inc"}}, {{"fail", "inc"}, {"inc", "decline"}}, {{"incOnce"}, {"inc"}}, {{"incOnce", "inc"}, {"incOnce"}}}
+	kindSets := [][][]string{{{"inc"}, {"inc"}}, {{"inc", "inc"}, {"inc"}}, {{"inc"}, {"decline", "inc"}}, {{"failretry"}, {"inc"}}, {{"inc", "inc"}, {"inc", "inc"}}, {{"inc"}, {"inc"}, {"inc"}}, {{"fail", "inc"}, {"inc", "decline"}}, {{"incOnce"}, {"inc"}}, {{"incOnce", "inc"}, {"incOnce"}}, {{"scribbleRetry"}, {"inc"}}}
 	if vx.Thorough() {
 		kindSets = append(kindSets, [][]string{{"inc", "inc", "inc"}, {"inc", "inc"}}, [][]string{{"inc", "inc"}, {"inc"}, {"inc"}}, [][]string{{"inc"}, {"inc"}, {"inc"}, {"inc"}})
 	}
